@@ -111,7 +111,7 @@ def second_pass_lines(summary: Dict) -> List[Dict]:
     are dispatched for every task, also for those that end without a candidate)"""
     qx = {q["id"]: q["x"] for q in summary["inp"]["qrys"]}
     tasks: Dict[int, List] = {}
-    ref0 = summary["inp"]["refs"][0]["id"]
+    ref0 = next(r["id"] for r in summary["inp"]["refs"] if r["x"])      # the first reference the reader keeps
     for ev in summary["modes"]["all"]["recorded"]:
         # one Primary event per (task, reference, strand): count each task once (first reference, forward strand),
         # keeping multiplicity (a fragment may coincide with the whole query)
